@@ -163,11 +163,12 @@ func compareLeafBytes(a, b []byte) (int, error) {
 	}
 
 	// Non-numeric: try string/bytes/bool via msgpack.Unmarshal.
-	var av, bv any
-	if err := msgpack.Unmarshal(a, &av); err != nil {
+	av, err := decodeGeneric(a)
+	if err != nil {
 		return 0, fmt.Errorf("%w: %v", ErrInvalidMsgpack, err)
 	}
-	if err := msgpack.Unmarshal(b, &bv); err != nil {
+	bv, err := decodeGeneric(b)
+	if err != nil {
 		return 0, fmt.Errorf("%w: %v", ErrInvalidMsgpack, err)
 	}
 	switch x := av.(type) {
@@ -196,6 +197,24 @@ func compareLeafBytes(a, b []byte) (int, error) {
 		return 0, nil
 	}
 	return 0, fmt.Errorf("%w: unsupported leaf type for comparison", ErrTypeMismatch)
+}
+
+// decodeGeneric decodes one msgpack value into an untyped Go value. The generic
+// decoder of the msgpack library sizes maps and slices by their declared element
+// count before it reads an element, so a threshold such as map32(0xffffffff)
+// would make it request gigabytes for five bytes of input. The value is
+// therefore walked with Decoder.Skip first, which allocates nothing per element
+// and fails on exactly the truncated / malformed inputs the decoder would fail
+// on; once it has succeeded every declared count is bounded by len(raw).
+func decodeGeneric(raw []byte) (any, error) {
+	if err := msgpack.NewDecoder(bytes.NewReader(raw)).Skip(); err != nil {
+		return nil, err
+	}
+	var v any
+	if err := msgpack.Unmarshal(raw, &v); err != nil {
+		return nil, err
+	}
+	return v, nil
 }
 
 func cmpInt64(a, b int64) int {
